@@ -760,3 +760,134 @@ def strict_forwarded(ctx):
                                     'HDKey(xpub with depth >= 1 whose 02||x is not on the curve) is accepted: a key object and addresses for a point that does not exist')
     ctx.saw('%d `strict=` arguments: each a constant or the caller\'s own strict' % n)
     ctx.floor(n, 30, 'strict arguments')
+
+
+from . import c12 as _c12
+PROP.obligation('C04.wif-chosen-network', canaries=[
+    mut.replace_expr('keys', 'Key.from_wif', 'network or next(iter(networks), DEFAULT_NETWORK)', 'next(iter(networks), network or DEFAULT_NETWORK)', 'addresses of the first network sharing the version byte'),
+])(_c12.wif_network_hint)
+
+
+@PROP.obligation('C04.explicit-encoding', canaries=[
+    mut.replace_stmt('keys', 'HDKey.__init__', 'if not encoding:', 'encoding = get_encoding_from_witness(witness_type) if witness_type else encoding', 'the witness type always decides the encoding'),
+    mut.replace_stmt('keys', 'HDKey.__init__', 'self.encoding = encoding', 'self.encoding = get_encoding_from_witness(witness_type)', 'the stored encoding ignores the argument'),
+])
+def explicit_encoding(ctx):
+    """HDKey(..., witness_type=W, encoding=E): the address encoding the caller chose is kept. The statements of HDKey.__init__ from the
+    witness-type default to `self.encoding = ...` are evaluated with an explicit encoding that differs from the default of the witness
+    type (legacy + bech32, segwit + base58) and with encoding=None: self.encoding is E in the first cases and the default of the witness
+    type only in the last one."""
+    q = 'keys:HDKey.__init__'
+    fn = ctx.repo.func(q)
+    body = fn.body
+    i0 = [i for i, s_ in enumerate(body) if isinstance(s_, ast.If) and norm(s_.test) == 'witness_type is None']
+    i1 = [i for i, s_ in enumerate(body) if isinstance(s_, ast.Assign) and any(norm(t) == 'self.encoding' for t in s_.targets)]
+    if not i0 or not i1 or i1[-1] < i0[0]:
+        ctx.undecided('HDKey.__init__: statements between the witness-type default and self.encoding not found')
+    stmts = body[i0[0]:i1[-1] + 1]
+    n = 0
+    for wt, enc, exp in (('legacy', 'bech32', 'bech32'), ('segwit', 'base58', 'base58'), ('p2sh-segwit', 'bech32', 'bech32'), (None, 'base58', 'base58'),
+                         ('segwit', None, 'default-of-segwit'), ('legacy', None, 'default-of-legacy')):
+        hooks = {'get_encoding_from_witness': lambda it, a, kw, st, node: 'default-of-%s' % (a[0] if isinstance(a[0], str) else show(term(a[0]))),
+                 'script_type_default': lambda it, a, kw, st, node: S(('var', 'script_type_default'), 'str'),
+                 'Key.__init__': lambda it, a, kw, st, node: None}
+        it = Interp(ctx.repo, 'keys', hooks=hooks, self_cls='keys:HDKey')
+        st = State(env={'self': S(SELF), 'witness_type': wt, 'encoding': enc, 'script_type': None, 'multisig': False, 'key': S(('var', 'key'), 'bytes'), 'network': 'bitcoin',
+                        'compressed': True, 'password': '', 'is_private': True, 'DEFAULT_WITNESS_TYPE': 'segwit'})
+        it.frames.append([])
+        try:
+            end = it.exec_block(stmts, st)
+        except AnalysisError as e:
+            ctx.undecided('HDKey.__init__(witness_type=%r, encoding=%r): option statements not evaluable: %s' % (wt, enc, str(e)[:100]))
+        it.frames.pop()
+        if end is None:
+            ctx.undecided('HDKey.__init__(witness_type=%r, encoding=%r): always raises' % (wt, enc))
+        got = end.heap.get(('attr', SELF, 'encoding'))
+        gv = got if isinstance(got, (str, type(None))) else show(term(got))
+        n += 1
+        ctx.saw('HDKey(witness_type=%r, encoding=%r) -> self.encoding = %s' % (wt, enc, gv))
+        ctx.require(gv == exp, q, 'HDKey(..., witness_type=%r, encoding=%r) stores encoding %s, expected %s' % (wt, enc, gv, exp), body[i1[-1]],
+                    "HDKey(k, witness_type='legacy', encoding='bech32').address() is the base58 address 1...: the chosen encoding is replaced by the default of the witness type, also for every child key")
+    ctx.floor(n, 6, 'encoding scenarios')
+
+
+def _residue_kind(e, fn, mod_names, depth=0):
+    """'reduced' when the value of expression e is a residue in [0, M): pow(a, b, M), x % M, mod_sqrt(...), a constant below 2**32, a
+    name whose every assignment in fn is reduced; 'overflow' when it is a reduced value combined with + or * WITHOUT a final reduction
+    (so it can reach M or more); None when nothing is known."""
+    if isinstance(e, ast.Call) and norm(e.func) == 'pow' and len(e.args) == 3 and norm(e.args[2]) in mod_names:
+        return 'reduced'
+    if isinstance(e, ast.Call) and norm(e.func) == 'mod_sqrt':
+        return 'reduced'
+    if isinstance(e, ast.BinOp) and isinstance(e.op, ast.Mod) and norm(e.right) in mod_names:
+        return 'reduced'
+    if isinstance(e, ast.Constant) and isinstance(e.value, int) and 0 <= e.value < 2 ** 32:
+        return 'reduced'
+    if isinstance(e, ast.BinOp) and isinstance(e.op, (ast.Add, ast.Mult)):
+        ks = [_residue_kind(e.left, fn, mod_names, depth), _residue_kind(e.right, fn, mod_names, depth)]
+        if 'reduced' in ks or 'overflow' in ks:
+            if all(isinstance(x, ast.Constant) for x in (e.left, e.right)):
+                return 'reduced'
+            return 'overflow'
+        return None
+    if isinstance(e, (ast.Name, ast.Attribute)) and depth < 3:
+        defs = [a.value for a in ast.walk(fn) if isinstance(a, ast.Assign) and any(norm(t) == norm(e) for t in a.targets)]
+        ks = set(_residue_kind(d, fn, mod_names, depth + 1) for d in defs)
+        if defs and ks == {'reduced'}:
+            return 'reduced'
+        if 'overflow' in ks:
+            return 'overflow'
+    return None
+
+
+_RESIDUE_FIXTURE = '''
+def bad(x, P):
+    ys = pow(x, 3, P) + 7 % P
+    y = mod_sqrt(ys)
+    if pow(y, 2, P) != ys:
+        raise ValueError('no point')
+
+def good(x, P):
+    ys = (pow(x, 3, P) + 7) % P
+    y = mod_sqrt(ys)
+    if pow(y, 2, P) != ys:
+        raise ValueError('no point')
+    if (y * y - x * x * x - 7) % P != 0:
+        raise ValueError('no point')
+'''
+
+
+def _residue_compares(fn, mod_names):
+    out = []
+    for c in ast.walk(fn):
+        if isinstance(c, ast.Compare) and len(c.ops) == 1 and isinstance(c.ops[0], (ast.Eq, ast.NotEq)):
+            kl, kr = _residue_kind(c.left, fn, mod_names), _residue_kind(c.comparators[0], fn, mod_names)
+            sides = [(c.left, kl), (c.comparators[0], kr)]
+            if any(k in ('reduced', 'overflow') and not isinstance(x, ast.Constant) for x, k in sides):
+                out.append((c, kl, kr))
+    return out
+
+
+@PROP.obligation('C04.residue-compare', canaries=[
+    mut.insert_before('keys', 'Key.public_uncompressed_hex', 'if self._y & 1 != sign:', "if pow(self._y, 2, secp256k1_p) != ys:\n    raise BKeyError('no point with this x coordinate')",
+                      'a residue is compared with the unreduced x^3 + 7'),
+])
+def residue_compare(ctx):
+    """Curve equations are congruences modulo p. Wherever keys.py compares two values with == / != and one side is a residue (pow(a, b, p),
+    x % p, mod_sqrt(...)), the other side is a residue as well - not a residue plus or times something without a final `% p`, which can
+    be p or more and then differs from the residue it is congruent to: the points whose x^3 mod p lies in [p - 7, p - 1] (y = 1 and
+    y = p - 1 among them) would be refused although they are on the curve."""
+    res = {f.name: [(k1, k2) for _, k1, k2 in _residue_compares(f, ('P',))] for f in ast.parse(_RESIDUE_FIXTURE).body}
+    if res != {'bad': [('reduced', 'overflow')], 'good': [('reduced', 'reduced'), ('reduced', 'reduced')]}:
+        raise AnalysisError('residue-compare fixture classified %s' % res)
+    ctx.saw('self-test on the embedded fixture: %s' % res)
+    mod = ctx.repo.mod('keys')
+    n = 0
+    for name, fn in sorted(mod.functions.items()):
+        for c, kl, kr in _residue_compares(fn, ('secp256k1_p', 'secp256k1_n')):
+            n += 1
+            ctx.saw('keys:%s: `%s` compares %s with %s' % (name, norm(c)[:70], kl, kr))
+            if 'overflow' in (kl, kr) and 'reduced' in (kl, kr):
+                ctx.violate('keys:' + name, '`%s` compares a residue modulo p with a value that is not reduced (a residue plus / times something, without `%% p`)' % norm(c)[:80], c,
+                            'a valid compressed public key whose x^3 mod p lies in [p-7, p-1] (the points with y = 1 or y = p-1) is refused: the verifier raises for a triple standard ECDSA accepts')
+    ctx.floor(n, 1, 'comparisons of residues')
